@@ -1,2 +1,632 @@
-// Package c11: monitor for property C11 (see DESIGN.md section 2).
+// Package c11: monitor for property C11 — SQL query results do not depend on
+// the physical plan (see DESIGN.md section 2).
+//
+// Only metamorphic relations between executions of immudb itself decide:
+// twin tables (primary key only / all secondary indexes), forced plans
+// (USE INDEX ON), ternary partition (p / NOT p / p IS NULL), lifecycle
+// (inside the writing transaction / committed / reopened) and ORDER BY
+// sortedness under the harness comparator.
 package c11
+
+import (
+	"encoding/json"
+	"fmt"
+	"math/rand/v2"
+	"os"
+	"sort"
+	"strconv"
+	"strings"
+	"time"
+
+	"verifharness/internal/fw"
+)
+
+func init() {
+	fw.RegisterMonitor("C11", "exploration", Run)
+	fw.RegisterIsolated("c11-schema", func(c *fw.Ctx, data []byte) {
+		var cs caseSpec
+		if err := json.Unmarshal(data, &cs); err != nil {
+			c.Inconclusive("bad case: " + err.Error())
+			return
+		}
+		runCase(c, cs)
+	})
+}
+
+type caseSpec struct {
+	Index   int
+	Queries int
+}
+
+func Run(c *fw.Ctx) {
+	c.Rule = "PRNG schema (all column types, nullable, composite/unique/late indexes) × DML history applied to twin tables t_plain (primary key only) and t_idx (all secondary indexes) × PRNG queries; an evaluation is one pair of executions that must agree by construction (twin tables, forced USE INDEX ON plan, p/NOT p/p IS NULL partition, in-tx/committed/reopened, ORDER BY sortedness); distinct = (relation × query shape × access path of each side × outcome) observed with a non-empty result"
+	c.Assume("no hand-written SQL semantics: the only harness-side meaning is multiset/sequence equality of rows, multiset union, and the ORDER BY comparator (NULL first, numeric, bytewise, false<true, chronological)")
+	c.Assume("excluded as recorded findings of C15: -0.0 in FLOAT columns and timestamps outside 1678–2262; float SUM/AVG (order dependent); LIMIT/OFFSET without a total order; historical queries inside an open transaction")
+	nSchemas := c.N(30, 1500)
+	nQueries := 60
+	if v := os.Getenv("VERIF_C11_SCHEMAS"); v != "" { // development aid
+		nSchemas, _ = strconv.Atoi(v)
+	}
+	var cases [][]byte
+	first := 0
+	if v := os.Getenv("VERIF_C11_FIRST"); v != "" {
+		first, _ = strconv.Atoi(v)
+	}
+	for i := first; i < first+nSchemas; i++ {
+		b, _ := json.Marshal(caseSpec{Index: i, Queries: nQueries})
+		cases = append(cases, b)
+	}
+	c.RunIsolated("c11-schema", cases, fw.CasesOpts{Workers: 14, CaseTimout: 15 * time.Minute})
+}
+
+type runner struct {
+	c           *fw.Ctx
+	r           *rand.Rand
+	s           *schema
+	e           *env
+	idx         int
+	aborted     bool
+	nviol       int
+	syncTxs     []uint64
+	life        map[int]map[string][2]*result // query id -> stage -> (plain, idx) results
+	plans       map[string]int
+	forcedClass string
+}
+
+var twins = [2][2]string{{"t_plain", "d_plain"}, {"t_idx", "d_idx"}}
+
+func subst(tpl string, tw [2]string) string {
+	return strings.NewReplacer("{T}", tw[0], "{D}", tw[1], "{q}", "").Replace(tpl)
+}
+
+func runCase(c *fw.Ctx, cs caseSpec) {
+	r := fw.NewRand(c.Seed, fmt.Sprintf("c11/schema/%d", cs.Index))
+	rn := &runner{c: c, r: r, idx: cs.Index, s: genSchema(r), life: map[int]map[string][2]*result{}, plans: map[string]int{}}
+	rn.e = &env{dir: c.Dir("sql")}
+	if err := rn.e.open(); err != nil {
+		c.Inconclusive("open: " + err.Error())
+		return
+	}
+	defer func() { rn.e.close() }()
+	s := rn.s
+
+	// DDL: twin tables, the join partner d, early indexes
+	ddl := []string{s.createTable("t_plain"), s.createTable("t_idx")}
+	svLen := s.col("s0").Len
+	for _, d := range []string{"d_plain", "d_idx"} {
+		ddl = append(ddl, fmt.Sprintf("CREATE TABLE %s (k INTEGER, iv INTEGER, sv VARCHAR[%d], PRIMARY KEY k)", d, svLen))
+	}
+	ddl = append(ddl, "CREATE INDEX ON d_idx(iv)", "CREATE INDEX ON d_idx(sv)", "CREATE INDEX ON d_idx(iv, sv)")
+	for _, ix := range s.Idx {
+		if !ix.Late {
+			ddl = append(ddl, ix.create("t_idx"))
+		}
+	}
+	for _, st := range ddl {
+		if err := rn.e.exec(st); err != nil {
+			c.Inconclusive(fmt.Sprintf("schema %d: DDL rejected: %s: %v", cs.Index, st, err))
+			c.Count("schemas_rejected", 1)
+			return
+		}
+	}
+	for k := 1; k <= 10; k++ {
+		iv, sv := s.pick(r, s.col("i0")), s.pick(r, s.col("s0"))
+		if iv.Null && s.col("i0").NotNull || r.IntN(6) == 0 {
+			iv = val{Null: true}
+		}
+		rn.apply(step{Kind: "insert-d", Tpl: fmt.Sprintf("INSERT INTO {D}(k, iv, sv) VALUES (%d, %s, %s)", k, iv.lit(), sv.lit())})
+	}
+
+	// phase A: first data
+	for i := 0; i < 22 && !rn.aborted; i++ {
+		st := genStep(r, s, false)
+		if i < 12 {
+			pk := s.pickPK(r)
+			cols, lits := s.rowLits(r, pk)
+			st = step{Kind: "insert", Tpl: fmt.Sprintf("INSERT INTO {T}(%s) VALUES (%s)", strings.Join(cols, ", "), strings.Join(lits, ", "))}
+		}
+		rn.apply(st)
+	}
+	// indexes created after the data
+	for _, ix := range s.Idx {
+		if ix.Late && !rn.aborted {
+			if err := rn.e.exec(ix.create("t_idx")); err != nil {
+				// an index that cannot be built over existing rows is a refusal, not a wrong answer
+				c.Count("late_index_rejected", 1)
+				c.Note(fmt.Sprintf("schema %d: %s rejected: %v", cs.Index, ix.create("t_idx"), err))
+				rn.dropIndex(ix)
+			}
+		}
+	}
+	// phase B
+	for i := 0; i < 16 && !rn.aborted; i++ {
+		if i%6 == 5 {
+			k := 1 + r.IntN(10)
+			if r.IntN(2) == 0 {
+				rn.apply(step{Kind: "update-d", Tpl: fmt.Sprintf("UPDATE {D} SET iv = %s WHERE k = %d", s.pick(r, s.col("i0")).lit(), k)})
+			} else {
+				rn.apply(step{Kind: "delete-d", Tpl: fmt.Sprintf("DELETE FROM {D} WHERE k = %d", k)})
+			}
+			continue
+		}
+		rn.apply(genStep(r, s, false))
+	}
+	if rn.aborted {
+		return
+	}
+
+	// batch 1: committed state only (historical queries included)
+	n1 := cs.Queries / 3
+	for i := 0; i < n1 && !rn.aborted; i++ {
+		q := rn.prepare(genQuery(r, s, i, rn.syncTxs))
+		rn.checkQuery(q, "committed")
+	}
+
+	// phase C: an explicit transaction; the same batch inside it, after commit, after reopen
+	var batch []*query
+	for i := n1; i < cs.Queries; i++ {
+		q := genQuery(r, s, i, nil)
+		for q.Kind == "history" {
+			q = genQuery(r, s, i, nil)
+		}
+		batch = append(batch, rn.prepare(q))
+	}
+	if err := rn.e.exec("BEGIN TRANSACTION"); err != nil {
+		c.Inconclusive("BEGIN TRANSACTION: " + err.Error())
+		return
+	}
+	for i := 0; i < 4+r.IntN(6) && !rn.aborted; i++ {
+		rn.apply(genStep(r, s, true))
+	}
+	if rn.e.tx != nil && !rn.aborted {
+		for _, q := range batch {
+			if rn.aborted {
+				break
+			}
+			rn.checkQuery(q, "in-tx")
+		}
+	} else {
+		c.Count("explicit_tx_lost", 1)
+	}
+	if rn.aborted {
+		return
+	}
+	if rn.e.tx != nil {
+		if err := rn.e.exec("COMMIT"); err != nil {
+			c.Count("commit_rejected", 1)
+			c.Note(fmt.Sprintf("schema %d: COMMIT rejected: %v", cs.Index, err))
+			rn.life = map[int]map[string][2]*result{} // the transaction's writes are gone
+		}
+	}
+	for _, q := range batch {
+		if rn.aborted {
+			return
+		}
+		rn.checkQuery(q, "committed")
+	}
+	if err := rn.e.reopen(); err != nil {
+		c.Violation("lifecycle/reopen-failed", fmt.Sprintf("schema %d: the store/engine could not be reopened: %v", cs.Index, err), rn.files(nil, nil))
+		return
+	}
+	for _, q := range batch {
+		if rn.aborted {
+			return
+		}
+		rn.checkQuery(q, "reopened")
+	}
+	c.Count("schemas_completed", 1)
+	if cs.Index%10 == 0 {
+		c.Sample(map[string]any{"schema": cs.Index, "ddl_t_idx": s.createTable("t_idx"), "indexes": len(s.Idx), "statements": len(rn.e.script)})
+	}
+	pl := map[string]any{}
+	for k, v := range rn.plans {
+		pl[k] = float64(v)
+	}
+	c.Set("access_paths_observed", pl)
+}
+
+func (rn *runner) dropIndex(ix index) {
+	var keep []index
+	for _, x := range rn.s.Idx {
+		if strings.Join(x.Cols, ",") != strings.Join(ix.Cols, ",") {
+			keep = append(keep, x)
+		}
+	}
+	rn.s.Idx = keep
+}
+
+func (rn *runner) stageTag() string {
+	if rn.e.tx != nil {
+		return "/in-tx"
+	}
+	return ""
+}
+
+// files builds the witness: the SQL script so far and the compared executions.
+func (rn *runner) files(a, b *result) map[string][]byte {
+	var sb strings.Builder
+	fmt.Fprintf(&sb, "-- C11 witness, schema %d (statements are applied through sql.Engine.Exec; in-tx = inside the open BEGIN TRANSACTION)\n", rn.idx)
+	sb.WriteString(strings.Join(rn.e.script, "\n"))
+	sb.WriteString("\n")
+	for _, r := range []*result{a, b} {
+		if r == nil {
+			continue
+		}
+		fmt.Fprintf(&sb, "\n-- query: %s\n-- plan: %s\n", r.SQL, r.Plan)
+		if r.Err != nil {
+			fmt.Fprintf(&sb, "-- error: %v\n", r.Err)
+		}
+		for _, row := range r.Enc {
+			sb.WriteString("--   " + row + "\n")
+		}
+	}
+	return map[string][]byte{"script.sql": []byte(sb.String())}
+}
+
+func (rn *runner) violation(sig, detail string, a, b *result) {
+	rn.nviol++
+	rn.c.Violation(sig, fmt.Sprintf("schema %d: %s", rn.idx, detail), rn.files(a, b))
+	if rn.nviol >= 12 {
+		rn.aborted = true // enough witnesses from this schema
+	}
+}
+
+// apply runs one DML step on both twins and checks that the twins still hold the same rows.
+func (rn *runner) apply(st step) {
+	if rn.aborted {
+		return
+	}
+	inTx := rn.e.tx != nil
+	tag := rn.stageTag()
+	var errs [2]error
+	for i, tw := range twins {
+		if inTx && rn.e.tx == nil {
+			break // the first twin's failure cancelled the transaction
+		}
+		errs[i] = rn.e.exec(subst(st.Tpl, tw))
+	}
+	rn.c.Count("dml_statements", 2)
+	where := ""
+	if st.Where != "" {
+		where = "/" + st.Where
+	}
+	switch {
+	case errs[0] != nil && errs[1] != nil:
+		rn.c.Count("dml_rejected_on_both", 1)
+		return
+	case inTx && errs[0] != nil:
+		// cancelled by the first twin; the second one never ran: nothing to compare
+		rn.c.Count("dml_cancelled_tx", 1)
+		return
+	case errs[0] != nil || errs[1] != nil:
+		side, err := "t_plain", errs[0]
+		if errs[1] != nil {
+			side, err = "t_idx", errs[1]
+		}
+		rn.c.Eval(1)
+		rn.violation("twin-tables/dml-"+st.Kind+"/error-on-one-side/"+errClass(err),
+			fmt.Sprintf("%s is rejected on %s only: %v", st.Tpl, side, err), nil, nil)
+		rn.aborted = true
+		return
+	}
+	if !inTx {
+		rn.syncTxs = append(rn.syncTxs, rn.e.st.LastCommittedTxID())
+	}
+	// state check through the primary indexes
+	tbl := "{T}"
+	if strings.HasSuffix(st.Kind, "-d") {
+		tbl = "{D}"
+	}
+	a := rn.e.run(subst("SELECT * FROM "+tbl, twins[0]))
+	b := rn.e.run(subst("SELECT * FROM "+tbl, twins[1]))
+	rn.c.Eval(1)
+	if a.Err != nil || b.Err != nil {
+		if (a.Err == nil) != (b.Err == nil) {
+			rn.violation("twin-tables/dml-"+st.Kind+where+tag+"/full-scan-error-on-one-side", fmt.Sprintf("after %s: SELECT * fails on one twin only: %v / %v", st.Tpl, a.Err, b.Err), a, b)
+			rn.aborted = true
+		}
+		return
+	}
+	out, oa, ob := diffRows(a, b, false)
+	if len(a.Enc) > 0 {
+		rn.c.Distinct("dml|" + st.Kind + "|" + short(st.Where) + tag + "|" + out)
+	}
+	if out != "equal" {
+		rn.violation("twin-tables/dml-"+st.Kind+where+tag+"/state-diverged",
+			fmt.Sprintf("after %s the twins hold different rows (primary-key scans): only in t_plain:\n    %s\n  only in t_idx:\n    %s", st.Tpl, head(oa, 4), head(ob, 4)), a, b)
+		rn.aborted = true
+	}
+}
+
+// prepare fixes the per-query choices (forced indexes, partition predicate)
+// so that every stage runs the same statements.
+type prepared struct {
+	forced  [][]string
+	rforced []string
+	tern    *pred
+	colForm bool
+}
+
+var prep = map[*query]*prepared{}
+
+func (rn *runner) prepare(q *query) *query {
+	p := &prepared{}
+	all := [][]string{strings.Split(pkNames(rn.s), ",")}
+	for _, ix := range rn.s.Idx {
+		all = append(all, ix.Cols)
+	}
+	perm := rn.r.Perm(len(all))
+	for _, i := range perm[:min(4, len(all))] {
+		p.forced = append(p.forced, all[i])
+	}
+	if q.Join != "" && len(q.JoinIdx) > 0 {
+		p.rforced = q.JoinIdx[rn.r.IntN(len(q.JoinIdx))]
+	}
+	if (q.Kind == "select" || q.Kind == "join" || q.Kind == "history") && q.Limit == 0 && q.Offset == 0 {
+		t := genPred(rn.r, rn.s, 1)
+		p.tern = &t
+		p.colForm = rn.r.IntN(4) == 0
+	}
+	prep[q] = p
+	return q
+}
+
+func (rn *runner) idxClass(cols []string, q *query) string {
+	key := strings.Join(cols, ",")
+	if key == pkNames(rn.s) {
+		return "pk"
+	}
+	for _, ix := range rn.s.Idx {
+		if strings.Join(ix.Cols, ",") == key {
+			cl := ix.class(rn.s)
+			if len(ix.Cols) > 1 && q.Where != nil && strings.Contains(q.Where.Tpl, "{q}"+ix.Cols[0]+" = ") {
+				cl += "-prefix"
+			}
+			return cl
+		}
+	}
+	return "other"
+}
+
+func (rn *runner) plan(r *result) string {
+	if r.Err != nil {
+		return "error"
+	}
+	p := planClass(rn.s, r.Index)
+	if strings.Contains(r.Plan, " desc ") {
+		p += "↓"
+	}
+	return p
+}
+
+// compare decides one pair of executions that must agree.
+func (rn *runner) compare(relation, shape, stage string, a, b *result, ordered bool) {
+	tag := ""
+	if stage == "in-tx" {
+		tag = "/in-tx"
+	}
+	if a.Err != nil && b.Err != nil {
+		rn.c.Count("pairs_rejected_on_both", 1)
+		return
+	}
+	rn.c.Eval(1)
+	if a.Err != nil || b.Err != nil {
+		rn.violation(relation+"/"+shape+tag+"/error-on-one-side",
+			fmt.Sprintf("[%s] one execution fails, the other answers:\n  A: %s\n     -> %v (%d rows, %s)\n  B: %s\n     -> %v (%d rows, %s)", stage, a.SQL, a.Err, len(a.Enc), a.Plan, b.SQL, b.Err, len(b.Enc), b.Plan), a, b)
+		return
+	}
+	out, oa, ob := diffRows(a, b, ordered)
+	pa, pb := rn.plan(a), rn.plan(b)
+	rn.plans[pa]++
+	rn.plans[pb]++
+	if len(a.Enc)+len(b.Enc) > 0 {
+		rn.c.Distinct(relation + "|" + rn.forcedClass + "|" + distinctShape(shape) + "|" + stage + "|" + pa + "~" + pb + "|" + out)
+	} else {
+		rn.c.Count("pairs_both_empty", 1)
+	}
+	if out == "equal" {
+		return
+	}
+	sig := relation + "/" + shape + tag
+	if out != "rows-differ" {
+		sig += "/" + out
+	}
+	rn.violation(sig, fmt.Sprintf("[%s] two executions that must agree differ (%s):\n  A: %s\n     plan %s, %d rows\n  B: %s\n     plan %s, %d rows\n  only in A:\n    %s\n  only in B:\n    %s",
+		stage, out, a.SQL, a.Plan, len(a.Enc), b.SQL, b.Plan, len(b.Enc), head(oa, 5), head(ob, 5)), a, b)
+}
+
+// distinctShape coarsens a shape for the evidence fingerprint (operator × reachability × modifiers, no column type).
+func distinctShape(shape string) string {
+	parts := strings.Split(shape, "/")
+	for i, p := range parts {
+		if strings.Contains(p, "-on-") {
+			parts[i] = short(p)
+		}
+	}
+	return strings.Join(parts, "/")
+}
+
+func (rn *runner) orderCheck(q *query, stage string, res *result) {
+	if len(q.Order) == 0 || res.Err != nil {
+		return
+	}
+	rn.c.Eval(1)
+	if i, k, bad := sortedViolation(q, res); bad {
+		tag := ""
+		if stage == "in-tx" {
+			tag = "/in-tx"
+		}
+		dir := "asc"
+		if q.Order[0].Desc {
+			dir = "desc"
+		}
+		rn.violation("orderby/not-sorted/"+kindName[k]+"/"+dir+tag,
+			fmt.Sprintf("[%s] %s\n  plan %s: row %d comes before row %d:\n    %s\n    %s", stage, res.SQL, res.Plan, i-1, i, res.Enc[i-1], res.Enc[i]), res, nil)
+		return
+	}
+	if len(res.Rows) > 1 {
+		rn.c.Distinct("orderby|" + q.Mods + "|" + rn.plan(res) + "|sorted")
+	}
+}
+
+func andWhere(w, p string) string {
+	if w == "" {
+		return p
+	}
+	return "(" + w + ") AND " + p
+}
+
+func (rn *runner) checkQuery(q *query, stage string) {
+	p := prep[q]
+	w := q.whereTpl()
+	rn.c.Count("queries_"+stage, 1)
+	plain := rn.e.run(q.sql("t_plain", "d_plain", nil, nil, w))
+	base := rn.e.run(q.sql("t_idx", "d_idx", nil, nil, w))
+
+	// (1) twin tables
+	rn.compare("twin-tables", q.Shape, stage, plain, base, q.Total)
+	// (5) ordering
+	rn.orderCheck(q, stage, plain)
+	rn.orderCheck(q, stage, base)
+
+	// (2) forced plans
+	for _, f := range p.forced {
+		if rn.aborted {
+			return
+		}
+		fr := rn.e.run(q.sql("t_idx", "d_idx", f, nil, w))
+		rn.forcedClass = rn.idxClass(f, q)
+		rn.compare("forced-index", q.Shape, stage, base, fr, q.Total)
+		rn.forcedClass = ""
+		rn.orderCheck(q, stage, fr)
+	}
+	if p.rforced != nil && !rn.aborted {
+		fr := rn.e.run(q.sql("t_idx", "d_idx", nil, p.rforced, w))
+		rn.forcedClass = "join-right"
+		rn.compare("forced-index", q.Shape, stage, base, fr, q.Total)
+		rn.forcedClass = ""
+	}
+
+	// (3) ternary partition
+	if p.tern != nil && !rn.aborted && base.Err == nil {
+		rn.ternary(q, p, stage, base, w)
+	}
+
+	// (4) lifecycle
+	if rn.life[q.ID] == nil {
+		rn.life[q.ID] = map[string][2]*result{}
+	}
+	rn.life[q.ID][stage] = [2]*result{plain, base}
+	prev := map[string]string{"committed": "in-tx", "reopened": "committed"}[stage]
+	if old, ok := rn.life[q.ID][prev]; ok && !rn.aborted {
+		rel := "lifecycle/" + prev + "-vs-" + stage
+		rn.compare(rel, "t_plain/"+q.Shape, stage, old[0], plain, q.Total)
+		rn.compare(rel, "t_idx/"+q.Shape, stage, old[1], base, q.Total)
+	}
+}
+
+func (rn *runner) ternary(q *query, p *prepared, stage string, base *result, w string) {
+	t := p.tern
+	rel := "ternary"
+	var parts []string
+	leaf := !strings.Contains(t.Class, "(") && t.Class != "composite-prefix"
+	colForm := p.colForm && leaf && t.Col != nil
+	mk := func(colForm bool) []string {
+		if colForm {
+			c := "{q}" + t.Col.Name
+			return []string{andWhere(w, c+" IS NULL"), andWhere(w, c+" IS NOT NULL AND ("+t.Tpl+")"), andWhere(w, c+" IS NOT NULL AND NOT ("+t.Tpl+")")}
+		}
+		return []string{andWhere(w, "("+t.Tpl+")"), andWhere(w, "NOT ("+t.Tpl+")"), andWhere(w, "(("+t.Tpl+") IS NULL)")}
+	}
+	parts = mk(colForm)
+	run := func(parts []string) ([]*result, int) {
+		var rs []*result
+		nerr := 0
+		for _, pw := range parts {
+			r := rn.e.run(q.sql("t_idx", "d_idx", nil, nil, pw))
+			if r.Err != nil {
+				nerr++
+			}
+			rs = append(rs, r)
+		}
+		return rs, nerr
+	}
+	rs, nerr := run(parts)
+	if !colForm && nerr == 1 && rs[2].Err != nil && leaf && t.Col != nil {
+		// nullness of p is not expressible: partition on the column it reads
+		rn.c.Count("ternary_isnull_not_expressible", 1)
+		colForm = true
+		rs, nerr = run(mk(true))
+	}
+	if colForm {
+		rel = "ternary-col"
+	}
+	shape := t.Class
+	if q.Mods != "" {
+		shape += "/" + q.Mods
+	}
+	if q.Kind == "history" {
+		shape = q.Shape
+	}
+	tag := ""
+	if stage == "in-tx" {
+		tag = "/in-tx"
+	}
+	if nerr == 3 {
+		rn.c.Count("pairs_rejected_on_both", 1)
+		return
+	}
+	rn.c.Eval(1)
+	if nerr > 0 {
+		var bad *result
+		for _, r := range rs {
+			if r.Err != nil {
+				bad = r
+			}
+		}
+		rn.violation(rel+"/"+shape+tag+"/error-on-one-side", fmt.Sprintf("[%s] the unsplit query answers (%d rows) but a part of its partition fails:\n  Q: %s\n  part: %s\n     -> %v", stage, len(base.Enc), base.SQL, bad.SQL, bad.Err), base, bad)
+		return
+	}
+	union := &result{SQL: rs[0].SQL + "\n  ⊎ " + rs[1].SQL + "\n  ⊎ " + rs[2].SQL, Plan: rs[0].Plan + " ⊎ " + rs[1].Plan + " ⊎ " + rs[2].Plan}
+	for _, r := range rs {
+		union.Enc = append(union.Enc, r.Enc...)
+	}
+	out, oa, ob := diffRows(base, union, false)
+	if len(base.Enc) > 0 {
+		sizes := []string{}
+		for _, r := range rs {
+			sizes = append(sizes, map[bool]string{true: "0", false: "n"}[len(r.Enc) == 0])
+		}
+		rn.c.Distinct(rel + "|" + distinctShape(shape) + "|" + stage + "|" + rn.plan(base) + "~" + rn.plan(rs[0]) + "," + rn.plan(rs[1]) + "," + rn.plan(rs[2]) + "|" + strings.Join(sizes, "") + "|" + out)
+	}
+	if out == "equal" {
+		return
+	}
+	rn.violation(rel+"/"+shape+tag, fmt.Sprintf("[%s] the three parts do not partition the result:\n  Q (%d rows, plan %s): %s\n  parts (%d + %d + %d rows):\n    %s\n  only in Q:\n    %s\n  only in the parts:\n    %s",
+		stage, len(base.Enc), base.Plan, base.SQL, len(rs[0].Enc), len(rs[1].Enc), len(rs[2].Enc), union.SQL, head(oa, 5), head(ob, 5)), base, union)
+}
+
+var _ = sort.Strings
+
+// errClass names the refusal (the sentinel error text, not its arguments).
+func errClass(err error) string {
+	t := strings.ToLower(err.Error())
+	if i := strings.Index(t, ":"); i > 0 {
+		t = t[:i]
+	}
+	var sb strings.Builder
+	for _, ch := range t {
+		switch {
+		case ch >= 'a' && ch <= 'z' || ch >= '0' && ch <= '9':
+			sb.WriteRune(ch)
+		default:
+			if sb.Len() > 0 && !strings.HasSuffix(sb.String(), "-") {
+				sb.WriteByte('-')
+			}
+		}
+		if sb.Len() >= 48 {
+			break
+		}
+	}
+	return strings.Trim(sb.String(), "-")
+}
